@@ -220,3 +220,42 @@ pub fn ladder(kind: &str, depth: usize) -> String {
   };
   format!("class Main {{ function main(): unit = {{ let x = {body}; }} }}")
 }
+
+pub const WIDE_KINDS: &[&str] = &[
+  "tuple-ids", "tuple-lits", "tuple-id-then-lits", "tuple-ids-then-lit", "args", "lambda-params", "lambda-params-annotated", "fields", "variants",
+  "variant-payload", "type-params", "type-args", "tuple-pattern", "object-pattern", "variant-pattern", "fntype-args", "params", "imports", "match-arms",
+  "tuple-type", "supertypes", "statements",
+];
+
+/// a construct with `n` siblings (the size limits of the parser sit at 16), wrapped in a class
+pub fn wide(kind: &str, n: usize) -> String {
+  let list = |f: &dyn Fn(usize) -> String, sep: &str| (0..n).map(|i| f(i)).collect::<Vec<_>>().join(sep);
+  let ids = list(&|i| format!("a{i}"), ", ");
+  let same = list(&|_| "a".to_string(), ", ");
+  let lits = list(&|i| format!("{i}"), ", ");
+  let in_main = |body: String| format!("class Main {{ function f(a: int): int = {{ let x = {body}; 1 }} function main(): unit = {{ }} }}");
+  match kind {
+    "tuple-ids" => in_main(format!("({same})")),
+    "tuple-lits" => in_main(format!("({lits})")),
+    "tuple-id-then-lits" => in_main(format!("(a, {lits})")),
+    "tuple-ids-then-lit" => in_main(format!("({same}, 1)")),
+    "args" => in_main(format!("Main.g({lits})")),
+    "lambda-params" => in_main(format!("({ids}) -> 1")),
+    "lambda-params-annotated" => in_main(format!("({}) -> 1", list(&|i| format!("a{i}: int"), ", "))),
+    "fields" => format!("class Main({}) {{ function main(): unit = {{ }} }}", list(&|i| format!("val a{i}: int"), ", ")),
+    "variants" => format!("class Main({}) {{ function main(): unit = {{ }} }}", list(&|i| format!("V{i}"), ", ")),
+    "variant-payload" => format!("class Main(V({})) {{ function main(): unit = {{ }} }}", list(&|_| "int".to_string(), ", ")),
+    "type-params" => format!("class Main<{}> {{ function main(): unit = {{ }} }}", list(&|i| format!("T{i}"), ", ")),
+    "type-args" => format!("class Main {{ function f(a: Box<{}>): unit = {{ }} function main(): unit = {{ }} }}", list(&|_| "int".to_string(), ", ")),
+    "tuple-pattern" => format!("class Main {{ function main(): unit = {{ let ({ids}) = 1; }} }}"),
+    "object-pattern" => format!("class Main {{ function main(): unit = {{ let {{ {ids} }} = 1; }} }}"),
+    "variant-pattern" => format!("class Main {{ function main(): unit = {{ let x = match 1 {{ V({ids}) -> 1, _ -> 2 }}; }} }}"),
+    "fntype-args" => format!("class Main {{ function f(a: ({}) -> int): unit = {{ }} function main(): unit = {{ }} }}", list(&|_| "int".to_string(), ", ")),
+    "params" => format!("class Main {{ function f({}): unit = {{ }} function main(): unit = {{ }} }}", list(&|i| format!("a{i}: int"), ", ")),
+    "imports" => format!("import {{ {} }} from std.option\nclass Main {{ function main(): unit = {{ }} }}", list(&|i| format!("C{i}"), ", ")),
+    "match-arms" => format!("class Main {{ function main(): unit = {{ let x = match 1 {{ {} }}; }} }}", list(&|i| format!("V{i} -> {i}"), ", ")),
+    "tuple-type" => format!("class Main {{ function f(a: ({})): unit = {{ }} function main(): unit = {{ }} }}", list(&|_| "int".to_string(), ", ")),
+    "supertypes" => format!("class Main : {} {{ function main(): unit = {{ }} }}", list(&|i| format!("I{i}"), ", ")),
+    _ => format!("class Main {{ function main(): unit = {{ {} }} }}", list(&|i| format!("let a{i} = {i};"), " ")),
+  }
+}
